@@ -2,6 +2,7 @@ package gen
 
 import (
 	"math"
+	"sort"
 	"strings"
 
 	"verif/harness/model"
@@ -41,11 +42,16 @@ func (r *Rng) Schema() *Schema {
 // SchemaWith forces the given fields to the given profile kinds (others random).
 func (r *Rng) SchemaWith(force map[string]Profile) *Schema {
 	s := r.Schema()
-	for f, p := range force {
+	names := make([]string, 0, len(force))
+	for f := range force {
+		names = append(names, f)
+	}
+	sort.Strings(names) // never the map's own order: a case is a pure function of its seed
+	for _, f := range names {
 		if _, ok := s.Prof[f]; !ok {
 			s.Fields = append(s.Fields, f)
 		}
-		s.Prof[f] = p
+		s.Prof[f] = force[f]
 	}
 	return s
 }
